@@ -3876,7 +3876,17 @@ def pull(
                 config=r.get_config_stack(),
             )
         if remote_name is not None:
-            _import_remote_refs(r.refs, remote_name, fetch_result.refs)
+            # Only the selected refs were fetched; a remote-tracking ref or tag
+            # for anything else would point at an object we do not have.
+            _import_remote_refs(
+                r.refs,
+                remote_name,
+                {
+                    ref: sha
+                    for ref, sha in fetch_result.refs.items()
+                    if sha is not None and sha in r.object_store
+                },
+            )
 
     # Trigger auto GC if needed
     from ..gc import maybe_auto_gc
